@@ -1,12 +1,1244 @@
-//! C20 — not built yet (stub).
+//! C20 — keys, commitments and range-proof rewind are deterministic and
+//! recoverable; blinding arithmetic is consistent; builder output validates.
+//!
+//! Parts (each with its own serde case type, used by `run` and `replay`):
+//!  * `proof`   — seed × path × amount × switch × builder generation: derivation and
+//!                commitment determinism, proof verifies, rewind with same seed /
+//!                view key / other seed / bit-flipped proof.
+//!  * `arith`   — BlindingFactor::split / add, Keychain::blind_sum against a
+//!                reference implementation of arithmetic modulo the group order.
+//!  * `builder` — build::transaction / build::partial_transaction (one and two
+//!                parties) on balanced multisets → validate, kernel verify, rewind.
+//!  * `reward`  — reward::output balances against consensus::reward(fees).
 
 use crate::engine::*;
-use serde_json::Value;
+use crate::world::{init_global, init_thread, scalar_from, sign_kernel};
+use crate::{ensure, fail};
+use grin_core::consensus;
+use grin_core::core::{Committed, FeeFields, KernelFeatures, Transaction, Weighting};
+use grin_core::libtx::build::{self, Append};
+use grin_core::libtx::proof::{self, LegacyProofBuilder, ProofBuild, ProofBuilder};
+use grin_core::libtx::reward;
+use grin_keychain::extkey_bip32::ChildNumber;
+use grin_keychain::{
+	BlindSum, BlindingFactor, ExtKeychain, ExtKeychainPath, Identifier, Keychain, SwitchCommitmentType, ViewKey,
+};
+use grin_util::secp::key::SecretKey;
+use grin_util::secp::pedersen::{Commitment, RangeProof};
+use grin_util::secp::{ContextFlag, Secp256k1};
+use grin_util::{from_hex, ToHex};
+use proptest::prelude::*;
+use serde_derive::{Deserialize, Serialize};
+use serde_json::{json, Value};
 
-pub fn run(_ctx: &Ctx) -> HResult<()> {
-	Err(HarnessError("C20 check not built yet".into()))
+// ------------------------------------------------------------------ helpers
+
+thread_local! {
+	/// the harness's own libsecp context (independent of the keychain's)
+	static SECP: Secp256k1 = Secp256k1::with_caps(ContextFlag::Commit);
+	/// fixed keychain used for key-id terms of arithmetic cases
+	static ARITH_KC: ExtKeychain = ExtKeychain::from_seed(b"gv c20 arithmetic keychain seed", false).expect("arith keychain");
 }
 
-pub fn replay(_ctx: &Ctx, _part: &str, _case: &Value) -> PResult {
+fn unhex(s: &str) -> Result<Vec<u8>, Fail> {
+	from_hex(s).map_err(|e| Fail::new("harness:hex", e))
+}
+
+fn unhex32(s: &str) -> Result<[u8; 32], Fail> {
+	let v = unhex(s)?;
+	ensure!(v.len() == 32, "harness:hex", "scalar of {} bytes", v.len());
+	let mut a = [0u8; 32];
+	a.copy_from_slice(&v);
+	Ok(a)
+}
+
+fn sw(regular: bool) -> SwitchCommitmentType {
+	if regular {
+		SwitchCommitmentType::Regular
+	} else {
+		SwitchCommitmentType::None
+	}
+}
+
+fn word(path: &[u32], i: usize) -> u32 {
+	path.get(i).copied().unwrap_or(0)
+}
+
+fn key_id(depth: u8, path: &[u32]) -> Identifier {
+	ExtKeychainPath::new(depth.min(4), word(path, 0), word(path, 1), word(path, 2), word(path, 3)).to_identifier()
+}
+
+/// the part of an identifier that determines the derived key
+fn eff_path(id: &Identifier) -> (u8, Vec<u32>) {
+	let p = id.to_path();
+	(p.depth, (0..p.depth.min(4) as usize).map(|i| u32::from(p.path[i])).collect())
+}
+
+fn hardened_mask(depth: u8, path: &[u32]) -> u8 {
+	(0..depth.min(4) as usize).fold(0u8, |m, i| m | (((word(path, i) >> 31) as u8) << i))
+}
+
+fn amount_class(a: u64) -> &'static str {
+	match a {
+		0 => "0",
+		1 => "1",
+		x if x == 1 << 32 => "2^32",
+		x if x == 1 << 52 => "2^52",
+		u64::MAX => "2^64-1",
+		x if x < 1 << 32 => "lt2^32",
+		x if x < 1 << 52 => "lt2^52",
+		_ => "ge2^52",
+	}
+}
+
+fn other_seed(seed: &[u8], other: Vec<u8>) -> Vec<u8> {
+	if other == seed {
+		let mut o = other;
+		o[0] ^= 1;
+		o
+	} else {
+		other
+	}
+}
+
+fn keychain(seed: &[u8]) -> Result<ExtKeychain, Fail> {
+	ExtKeychain::from_seed(seed, false).map_err(|e| Fail::new("from_seed-err", format!("from_seed({}): {:?}", seed.to_hex(), e)))
+}
+
+type Triple = (u64, Identifier, SwitchCommitmentType);
+
+fn triple_str(t: &Triple) -> String {
+	format!("(amount {}, id {}, {:?})", t.0, t.1.to_hex(), t.2)
+}
+
+// ------------------------------------------------------------------ strategies
+
+fn child() -> impl Strategy<Value = u32> {
+	prop_oneof![
+		2 => Just(0u32),
+		1 => Just(1u32),
+		3 => 0u32..1000,
+		1 => Just((1u32 << 31) - 1),
+		1 => Just(1u32 << 31),
+		2 => (0u32..1000).prop_map(|x| x | (1 << 31)),
+		1 => Just(u32::MAX),
+		2 => 0u32..(1 << 31),
+		3 => any::<u32>(),
+	]
+}
+
+fn amount() -> impl Strategy<Value = u64> {
+	prop_oneof![
+		2 => Just(0u64),
+		2 => Just(1u64),
+		2 => Just(1u64 << 32),
+		2 => Just(1u64 << 52),
+		2 => Just(u64::MAX),
+		3 => 2u64..(1 << 20),
+		3 => (1u32..64, 0u64..3).prop_map(|(k, d)| (1u64 << k).wrapping_add(d).wrapping_sub(1)),
+		2 => 0u64..(1 << 52),
+		5 => any::<u64>(),
+	]
+}
+
+fn seed_bytes() -> impl Strategy<Value = Vec<u8>> {
+	prop::collection::vec(any::<u8>(), 16..=64)
+}
+
+/// a seed and a different seed: independent, one bit apart, or one byte longer/shorter
+fn seed_pair() -> impl Strategy<Value = (Vec<u8>, Vec<u8>)> {
+	(seed_bytes(), seed_bytes(), 0u8..4, any::<u16>()).prop_map(|(s, r, kind, bit)| {
+		let o = match kind {
+			0 | 1 => r,
+			2 => {
+				let mut o = s.clone();
+				let b = (bit as usize * (o.len() * 8)) >> 16;
+				o[b / 8] ^= 1 << (b % 8);
+				o
+			}
+			_ => {
+				let mut o = s.clone();
+				if o.len() < 64 {
+					o.push(0);
+				} else {
+					o.pop();
+				}
+				o
+			}
+		};
+		let o = other_seed(&s, o);
+		(s, o)
+	})
+}
+
+/// (depth, 4 words); words beyond the depth are zero unless `noncanon`
+fn key_path(min_depth: u8) -> impl Strategy<Value = (u8, Vec<u32>)> {
+	(min_depth..=4u8, [child(), child(), child(), child()], prop::bool::weighted(0.1)).prop_map(|(d, w, noncanon)| {
+		let mut w = w.to_vec();
+		if !noncanon {
+			for x in w.iter_mut().skip(d as usize) {
+				*x = 0;
+			}
+		}
+		(d, w)
+	})
+}
+
+// ------------------------------------------------------------------ part: proof
+
+#[derive(Clone, Debug, Serialize, Deserialize)]
+pub struct ProofCase {
+	/// seed bytes (hex)
+	pub seed: String,
+	/// a different seed (hex)
+	pub other_seed: String,
+	pub depth: u8,
+	/// the four 32-bit words of the identifier (bit 31 = hardened)
+	pub path: Vec<u32>,
+	pub amount: u64,
+	pub switch_regular: bool,
+	/// LegacyProofBuilder (only generated with depth 3 and the regular switch)
+	pub legacy: bool,
+	/// depth of the view key (clamped to `depth`)
+	pub vk_depth: u8,
+	/// view key created from the privately derived child instead of ckd_pub from the root
+	pub vk_from_priv: bool,
+	/// flip a bit of the `mu` scalar (which carries amount and message) instead of anywhere
+	pub flip_mu: bool,
+	pub flip: u16,
+}
+
+fn proof_strategy() -> impl Strategy<Value = ProofCase> {
+	(
+		seed_pair(),
+		key_path(0),
+		amount(),
+		any::<bool>(),
+		prop::bool::weighted(0.2),
+		(0u8..=4, any::<bool>()),
+		(prop::bool::weighted(0.6), any::<u16>()),
+	)
+		.prop_map(|((s, o), (depth, path), amount, switch_regular, legacy, (vk_depth, vk_from_priv), (flip_mu, flip))| {
+			// the legacy message format carries neither depth nor switch type:
+			// check_output assumes depth 3 and the regular switch (proof.rs:324,332)
+			let (depth, switch_regular) = if legacy { (3, true) } else { (depth, switch_regular) };
+			ProofCase {
+				seed: s.to_hex(),
+				other_seed: o.to_hex(),
+				depth,
+				path,
+				amount,
+				switch_regular,
+				legacy,
+				vk_depth,
+				vk_from_priv,
+				flip_mu,
+				flip,
+			}
+		})
+}
+
+/// create → verify → rewind(same seed) → rewind(other seed) → rewind(flipped)
+fn roundtrip<B0: ProofBuild, B1: ProofBuild, B2: ProofBuild>(
+	ctx: &Ctx,
+	kc: &ExtKeychain,
+	b_create: &B0,
+	b_same: &B1,
+	b_other: &B2,
+	want: &Triple,
+	commit: Commitment,
+	flip: Option<(bool, u16)>,
+	counting: bool,
+) -> Result<RangeProof, Fail> {
+	let ev = &ctx.ev;
+	let secp = kc.secp();
+	let (amount, id, switch) = (want.0, &want.1, want.2);
+	let proof = proof::create(kc, b_create, amount, id, switch, commit, None).map_err(|e| Fail::new("proof-create-err", format!("create {}: {:?}", triple_str(want), e)))?;
+	if let Err(e) = proof::verify(secp, commit, proof, None) {
+		fail!("honest-proof-rejected", "proof for {} does not verify: {:?}", triple_str(want), e);
+	}
+	match proof::rewind(secp, b_same, commit, None, proof) {
+		Ok(Some(got)) => {
+			ensure!(got.0 == amount, "rewind-amount", "rewind gave {} for {}", triple_str(&got), triple_str(want));
+			ensure!(got.1 == *id, "rewind-path", "rewind gave {} for {}", triple_str(&got), triple_str(want));
+			ensure!(got.2 == switch, "rewind-switch", "rewind gave {} for {}", triple_str(&got), triple_str(want));
+		}
+		Ok(None) => fail!("rewind-none", "rewind with the same seed recovered nothing for {}", triple_str(want)),
+		Err(e) => fail!("rewind-err", "rewind with the same seed failed for {}: {:?}", triple_str(want), e),
+	}
+	match proof::rewind(secp, b_other, commit, None, proof) {
+		Ok(None) => {}
+		Ok(Some(got)) => fail!("other-seed-rewinds", "builder of another seed recovered {} from the proof for {}", triple_str(&got), triple_str(want)),
+		Err(_) => {
+			if counting {
+				ev.class("other_seed_rewind_returned_err");
+			}
+		}
+	}
+	if let Some((flip_mu, flip)) = flip {
+		let mut p2 = proof;
+		let bit = if flip_mu {
+			// mu = proof[32..64]; amount and message are read from mu + rho*x + alpha
+			256 + ((flip as usize * 256) >> 16)
+		} else {
+			(flip as usize * (p2.plen * 8)) >> 16
+		};
+		p2.proof[bit / 8] ^= 1 << (bit % 8);
+		match proof::rewind(secp, b_same, commit, None, p2) {
+			Ok(Some(got)) => {
+				// only the key-determining part of the identifier can be compared:
+				// words beyond the depth do not influence the commitment
+				ensure!(
+					got.0 == amount && got.2 == switch && eff_path(&got.1) == eff_path(id),
+					"flipped-proof-rewinds-different",
+					"proof with bit {} flipped rewinds to {} instead of {}",
+					bit,
+					triple_str(&got),
+					triple_str(want)
+				);
+				if counting {
+					ev.class(if got.1 == *id { "flipped_rewind_same_triple" } else { "flipped_rewind_same_key_other_padding" });
+				}
+			}
+			Ok(None) | Err(_) => {
+				if counting {
+					ev.class("flipped_rewind_nothing");
+				}
+			}
+		}
+	}
+	Ok(proof)
+}
+
+/// signature of the one failure class that is checked but, when listed as an
+/// open known finding, does not stop the exploration of the other cases
+const SIG_VK_ZERO: &str = "viewkey-zero-amount-err";
+
+pub fn check_proof(ctx: &Ctx, c: &ProofCase, counting: bool) -> PResult {
+	let ev = &ctx.ev;
+	let seed = unhex(&c.seed)?;
+	ensure!(!seed.is_empty(), "harness:case", "empty seed");
+	let other = other_seed(&seed, unhex(&c.other_seed)?);
+	let depth = c.depth.min(4);
+	let id = key_id(depth, &c.path);
+	let switch = sw(c.switch_regular);
+	let amount = c.amount;
+	let want: Triple = (amount, id.clone(), switch);
+
+	// two independently constructed keychains + one of another seed
+	let kc1 = keychain(&seed)?;
+	let kc2 = keychain(&seed)?;
+	let kco = keychain(&other)?;
+	let derr = |e| Fail::new("derive-err", format!("derive_key {}: {:?}", triple_str(&want), e));
+	let k1 = kc1.derive_key(amount, &id, switch).map_err(derr)?;
+	let k2 = kc2.derive_key(amount, &id, switch).map_err(derr)?;
+	ensure!(k1 == k2, "derive-nondeterministic", "two keychains of seed {} derive different keys for {}", c.seed, triple_str(&want));
+	// state must not leak between derivations on one keychain
+	let _ = kc1.derive_key(amount ^ 1, &key_id(4 - depth, &[7, 1 << 31, 3, c.path.len() as u32]), sw(!c.switch_regular));
+	let k1b = kc1.derive_key(amount, &id, switch).map_err(derr)?;
+	ensure!(k1 == k1b, "derive-nondeterministic", "repeated derive_key differs for {}", triple_str(&want));
+	let cerr = |e| Fail::new("commit-err", format!("commit {}: {:?}", triple_str(&want), e));
+	let commit = kc1.commit(amount, &id, switch).map_err(cerr)?;
+	let commit2 = kc2.commit(amount, &id, switch).map_err(cerr)?;
+	ensure!(commit == commit2, "commit-nondeterministic", "two keychains of seed {} commit differently for {}", c.seed, triple_str(&want));
+	let own = SECP.with(|s| s.commit(amount, k1.clone())).map_err(|e| Fail::new("commit-err", format!("own commit: {:?}", e)))?;
+	ensure!(own == commit, "commit-not-amount-key", "Keychain::commit differs from amount*H + derive_key*G for {}", triple_str(&want));
+	let commit_o = kco.commit(amount, &id, switch).map_err(cerr)?;
+	ensure!(commit_o != commit, "other-seed-same-commit", "seeds {} and {} give the same commitment for {}", c.seed, other.to_hex(), triple_str(&want));
+
+	let flip = Some((c.flip_mu, c.flip));
+	let proof = if c.legacy {
+		let (b0, b1, b2) = (LegacyProofBuilder::new(&kc1), LegacyProofBuilder::new(&kc2), LegacyProofBuilder::new(&kco));
+		roundtrip(ctx, &kc1, &b0, &b1, &b2, &want, commit, flip, counting)?
+	} else {
+		let (b0, b1, b2) = (ProofBuilder::new(&kc1), ProofBuilder::new(&kc2), ProofBuilder::new(&kco));
+		roundtrip(ctx, &kc1, &b0, &b1, &b2, &want, commit, flip, counting)?
+	};
+
+	// view keys share the rewind nonce of ProofBuilder only
+	let mut vk_class = "viewkey_not_applicable_legacy";
+	if !c.legacy {
+		let secp = kc2.secp();
+		let vd = c.vk_depth.min(depth) as usize;
+		let mut h = kc2.hasher();
+		let verr = |e| Fail::new("viewkey-create-err", format!("{:?}", e));
+		let vk = if c.vk_from_priv {
+			let mut ext = kc2.master.clone();
+			for i in 0..vd {
+				ext = ext.ckd_priv(secp, &mut h, ChildNumber::from(word(&c.path, i))).map_err(|e| Fail::new("derive-err", format!("ckd_priv: {:?}", e)))?;
+			}
+			Some(ViewKey::create(&kc2, ext, &mut h, false).map_err(verr)?)
+		} else {
+			let mut vk = Some(ViewKey::create(&kc2, kc2.master.clone(), &mut h, false).map_err(verr)?);
+			for i in 0..vd {
+				let cn = ChildNumber::from(word(&c.path, i));
+				match vk.as_ref().unwrap().ckd_pub(secp, &mut h, cn) {
+					Ok(v) => vk = Some(v),
+					Err(e) => {
+						ensure!(cn.is_hardened(), "viewkey-ckd_pub-err", "ckd_pub({}) failed: {:?}", cn, e);
+						vk = None; // public derivation through a hardened step is impossible by design
+						break;
+					}
+				}
+			}
+			vk
+		};
+		if let Some(vk) = vk {
+			let suffix_hardened = (vd..depth as usize).any(|i| word(&c.path, i) >> 31 == 1);
+			// ViewKey::commit returns Err(SwitchCommitment) for the regular switch (view_key.rs:190)
+			let supported = !c.switch_regular && !suffix_hardened;
+			let r = proof::rewind(secp, &vk, commit, None, proof);
+			match (supported, r) {
+				(true, Ok(Some(got))) => {
+					ensure!(got == want, "viewkey-rewind-mismatch", "view key (depth {}) rewinds to {} instead of {}", vd, triple_str(&got), triple_str(&want));
+					vk_class = "viewkey_recovered";
+				}
+				(true, Err(e)) if amount == 0 => {
+					// ViewKey::commit builds the value part as commit_value(amount).to_pubkey(), which
+					// does not exist for amount 0 (point at infinity): view_key.rs:170
+					let msg = format!(
+						"matching view key (depth {}) fails on a zero-value output instead of recovering {}: rewind -> {:?}; ViewKey::commit(0) -> {:?}",
+						vd,
+						triple_str(&want),
+						e,
+						vk.commit(secp, 0, switch).map(|_| ())
+					);
+					if !ctx.is_known(SIG_VK_ZERO) {
+						fail!(SIG_VK_ZERO, "{}", msg);
+					}
+					if counting {
+						ctx.report("proof", SIG_VK_ZERO, serde_json::to_value(c).unwrap(), &msg);
+					}
+					vk_class = "viewkey_zero_amount_err(known finding)";
+				}
+				(true, r) => fail!("viewkey-rewind-failed", "matching view key (depth {}, from_priv {}) did not recover {}: {:?}", vd, c.vk_from_priv, triple_str(&want), r.map(|o| o.map(|t| triple_str(&t)))),
+				(false, Ok(Some(got))) => {
+					ensure!(got == want, "viewkey-rewind-mismatch", "view key (depth {}) rewinds to {} instead of {}", vd, triple_str(&got), triple_str(&want));
+					vk_class = "viewkey_recovered_outside_documented_domain";
+				}
+				(false, Ok(None)) => vk_class = if suffix_hardened { "viewkey_hardened_suffix_none" } else { "viewkey_regular_switch_none" },
+				(false, Err(_)) => vk_class = "viewkey_regular_switch_err",
+			}
+			// a root view key of another seed recovers nothing
+			let mut ho = kco.hasher();
+			let vko = ViewKey::create(&kco, kco.master.clone(), &mut ho, false).map_err(verr)?;
+			match proof::rewind(secp, &vko, commit, None, proof) {
+				Ok(Some(got)) => fail!("other-seed-viewkey-rewinds", "view key of another seed recovered {}", triple_str(&got)),
+				_ => {}
+			}
+		} else {
+			vk_class = "viewkey_ckd_pub_hardened_refused";
+		}
+	}
+
+	if counting {
+		ev.eval();
+		ev.class(&format!("proof_amount:{}", amount_class(amount)));
+		ev.class(&format!("proof_depth:{}", depth));
+		ev.class(if c.switch_regular { "proof_switch:regular" } else { "proof_switch:none" });
+		ev.class(if c.legacy { "proof_builder:legacy" } else { "proof_builder:new" });
+		ev.class(vk_class);
+		if vk_class == "viewkey_recovered" && c.vk_depth.min(depth) > 0 {
+			ev.class("viewkey_recovered_child_key");
+		}
+		if hardened_mask(depth, &c.path) != 0 {
+			ev.class("proof_path_with_hardened_step");
+		}
+		if depth >= 2 && amount != 0 {
+			ev.nontrivial(&("proof", depth, hardened_mask(depth, &c.path), amount_class(amount), c.switch_regular, c.legacy));
+		}
+		ev.sample("proof", || serde_json::to_value(c).unwrap());
+	}
 	Ok(())
+}
+
+// ------------------------------------------------------------------ part: arith
+
+/// order of the secp256k1 group
+const N: [u8; 32] = [
+	0xFF, 0xFF, 0xFF, 0xFF, 0xFF, 0xFF, 0xFF, 0xFF, 0xFF, 0xFF, 0xFF, 0xFF, 0xFF, 0xFF, 0xFF, 0xFE, 0xBA, 0xAE, 0xDC, 0xE6, 0xAF, 0x48, 0xA0, 0x3B, 0xBF, 0xD2, 0x5E, 0x8C, 0xD0,
+	0x36, 0x41, 0x41,
+];
+const ZERO: [u8; 32] = [0u8; 32];
+
+/// reference arithmetic modulo N on 32-byte big-endian numbers < N
+fn add_mod(a: &[u8; 32], b: &[u8; 32]) -> [u8; 32] {
+	let mut s = [0u8; 32];
+	let mut carry = 0u16;
+	for i in (0..32).rev() {
+		let t = a[i] as u16 + b[i] as u16 + carry;
+		s[i] = t as u8;
+		carry = t >> 8;
+	}
+	if carry == 1 || s >= N {
+		// wrapping subtraction of N is exact: the true result is < N < 2^256
+		let mut borrow = 0i16;
+		for i in (0..32).rev() {
+			let t = s[i] as i16 - N[i] as i16 - borrow;
+			s[i] = t.rem_euclid(256) as u8;
+			borrow = if t < 0 { 1 } else { 0 };
+		}
+	}
+	s
+}
+
+fn neg_mod(a: &[u8; 32]) -> [u8; 32] {
+	if *a == ZERO {
+		return ZERO;
+	}
+	let mut s = [0u8; 32];
+	let mut borrow = 0i16;
+	for i in (0..32).rev() {
+		let t = N[i] as i16 - a[i] as i16 - borrow;
+		s[i] = t.rem_euclid(256) as u8;
+		borrow = if t < 0 { 1 } else { 0 };
+	}
+	s
+}
+
+fn sub_mod(a: &[u8; 32], b: &[u8; 32]) -> [u8; 32] {
+	add_mod(a, &neg_mod(b))
+}
+
+fn bf(b: &[u8; 32]) -> BlindingFactor {
+	BlindingFactor::from_slice(b)
+}
+
+fn bf_bytes(b: &BlindingFactor) -> [u8; 32] {
+	let mut a = [0u8; 32];
+	a.copy_from_slice(b.as_ref());
+	a
+}
+
+/// Σpos·G − Σneg·G == 0, computed on curve points by libsecp (zero scalars contribute nothing)
+fn tally_to_zero(secp: &Secp256k1, pos: &[[u8; 32]], neg: &[[u8; 32]]) -> Result<bool, Fail> {
+	let conv = |v: &[[u8; 32]]| -> Result<Vec<Commitment>, Fail> {
+		v.iter()
+			.filter(|x| **x != ZERO)
+			.map(|x| {
+				let k = SecretKey::from_slice(secp, x).map_err(|e| Fail::new("harness:scalar", format!("{:?}", e)))?;
+				secp.commit(0, k).map_err(|e| Fail::new("harness:commit", format!("{:?}", e)))
+			})
+			.collect()
+	};
+	let (p, n) = (conv(pos)?, conv(neg)?);
+	if p.is_empty() && n.is_empty() {
+		return Ok(true);
+	}
+	Ok(secp.verify_commit_sum(p, n))
+}
+
+#[derive(Clone, Debug, Serialize, Deserialize)]
+pub struct IdTerm {
+	pub value: u64,
+	pub depth: u8,
+	pub path: Vec<u32>,
+	pub switch_regular: bool,
+	pub positive: bool,
+}
+
+#[derive(Clone, Debug, Serialize, Deserialize)]
+pub struct ArithCase {
+	/// positive / negative blinding factors of the sum (hex scalars < N, zero allowed)
+	pub pos: Vec<String>,
+	pub neg: Vec<String>,
+	/// key-id operands (derived on a fixed keychain)
+	pub ids: Vec<IdTerm>,
+	/// seed of the permutation applied to all operand lists
+	pub perm: u64,
+	/// operands of split / add-then-subtract
+	pub a: String,
+	pub b: String,
+}
+
+fn scalar() -> impl Strategy<Value = [u8; 32]> {
+	let small = |k: u8| {
+		let mut a = ZERO;
+		a[31] = k;
+		a
+	};
+	prop_oneof![
+		8 => any::<[u8; 32]>().prop_map(|mut b| {
+			if b >= N {
+				b[0] &= 0x7f;
+			}
+			b
+		}),
+		2 => (1u8..=16).prop_map(small),
+		2 => (1u8..=16).prop_map(move |k| neg_mod(&small(k))),
+		1 => Just(ZERO),
+	]
+}
+
+fn arith_strategy() -> impl Strategy<Value = ArithCase> {
+	let id_term = (amount(), key_path(0), any::<bool>(), any::<bool>()).prop_map(|(value, (depth, path), switch_regular, positive)| IdTerm {
+		value,
+		depth,
+		path,
+		switch_regular,
+		positive,
+	});
+	(
+		prop::collection::vec(scalar(), 0..=4),
+		prop::collection::vec(scalar(), 0..=4),
+		// 0: nothing, 1: cancel one operand, 2: make the whole sum cancel
+		prop_oneof![6 => Just(0u8), 1 => Just(1u8), 1 => Just(2u8)],
+		prop_oneof![4 => Just(vec![]).boxed(), 1 => prop::collection::vec(id_term, 1..=3).boxed()],
+		any::<u64>(),
+		(scalar(), scalar(), prop_oneof![8 => Just(0u8), 1 => Just(1u8), 1 => Just(2u8)]),
+	)
+		.prop_map(|(pos, mut neg, cancel, ids, perm, (a, b, rel))| {
+			match cancel {
+				1 if !pos.is_empty() => neg.push(pos[0]),
+				2 if ids.is_empty() => {
+					// neg := [Σpos − Σneg] appended, so that the total is zero
+					let mut t = ZERO;
+					for p in &pos {
+						t = add_mod(&t, p);
+					}
+					for n in &neg {
+						t = sub_mod(&t, n);
+					}
+					neg.push(t);
+				}
+				_ => {}
+			}
+			let b = match rel {
+				1 => a,
+				2 => neg_mod(&a),
+				_ => b,
+			};
+			ArithCase {
+				pos: pos.iter().map(|x| x.to_hex()).collect(),
+				neg: neg.iter().map(|x| x.to_hex()).collect(),
+				ids,
+				perm,
+				a: a.to_hex(),
+				b: b.to_hex(),
+			}
+		})
+}
+
+fn shuffle<T>(v: &mut Vec<T>, seed: &mut u64) {
+	for i in (1..v.len()).rev() {
+		*seed = seed.wrapping_mul(6364136223846793005).wrapping_add(1442695040888963407);
+		let j = ((*seed >> 33) as usize) % (i + 1);
+		v.swap(i, j);
+	}
+}
+
+fn blind_sum_of(kc: &ExtKeychain, pos: &[[u8; 32]], neg: &[[u8; 32]], ids: &[IdTerm]) -> Result<BlindingFactor, grin_keychain::Error> {
+	let mut bs = BlindSum::new();
+	for p in pos {
+		bs = bs.add_blinding_factor(bf(p));
+	}
+	for n in neg {
+		bs = bs.sub_blinding_factor(bf(n));
+	}
+	for t in ids {
+		// (ValueExtKeychainPath is not exported by name; its fields are public)
+		let mut v = key_id(t.depth, &t.path).to_value_path(t.value);
+		v.switch = sw(t.switch_regular);
+		bs = if t.positive { bs.add_key_id(v) } else { bs.sub_key_id(v) };
+	}
+	kc.blind_sum(&bs)
+}
+
+pub fn check_arith(ctx: &Ctx, c: &ArithCase, counting: bool) -> PResult {
+	ARITH_KC.with(|kc| check_arith_kc(ctx, kc, c, counting))
+}
+
+fn check_arith_kc(ctx: &Ctx, kc: &ExtKeychain, c: &ArithCase, counting: bool) -> PResult {
+	let ev = &ctx.ev;
+	let secp = kc.secp();
+	let valid = |s: &String| -> Result<[u8; 32], Fail> {
+		let x = unhex32(s)?;
+		ensure!(x < N, "harness:case", "scalar {} is not below the group order", s);
+		Ok(x)
+	};
+	let mut pos = c.pos.iter().map(valid).collect::<Result<Vec<_>, _>>()?;
+	let mut neg = c.neg.iter().map(valid).collect::<Result<Vec<_>, _>>()?;
+	let mut ids = c.ids.clone();
+	let (a, b) = (valid(&c.a)?, valid(&c.b)?);
+
+	// --- blind_sum against the reference sum, Err exactly when the sum is zero
+	let mut want = ZERO;
+	for p in &pos {
+		want = add_mod(&want, p);
+	}
+	for n in &neg {
+		want = sub_mod(&want, n);
+	}
+	for t in &ids {
+		let k = kc
+			.derive_key(t.value, &key_id(t.depth, &t.path), sw(t.switch_regular))
+			.map_err(|e| Fail::new("derive-err", format!("{:?}", e)))?;
+		want = if t.positive { add_mod(&want, &k.0) } else { sub_mod(&want, &k.0) };
+	}
+	let r1 = blind_sum_of(kc, &pos, &neg, &ids);
+	match (&r1, want == ZERO) {
+		(Ok(s), false) => ensure!(bf_bytes(s) == want, "blind_sum-wrong", "blind_sum gives {} reference {}", bf_bytes(s).to_hex(), want.to_hex()),
+		(Ok(s), true) => fail!("blind_sum-zero-accepted", "blind_sum returned {} for operands summing to zero", bf_bytes(s).to_hex()),
+		(Err(e), false) => fail!("blind_sum-err", "blind_sum failed ({:?}) for a non-zero sum {}", e, want.to_hex()),
+		(Err(_), true) => {} // libsecp rejects the zero key: outside the domain
+	}
+	// --- permutation invariance
+	let mut sd = c.perm;
+	shuffle(&mut pos, &mut sd);
+	shuffle(&mut neg, &mut sd);
+	shuffle(&mut ids, &mut sd);
+	let r2 = blind_sum_of(kc, &pos, &neg, &ids);
+	match (&r1, &r2) {
+		(Ok(x), Ok(y)) => ensure!(x == y, "blind_sum-order-dependent", "blind_sum {} after permutation {}", bf_bytes(x).to_hex(), bf_bytes(y).to_hex()),
+		(Err(_), Err(_)) => {}
+		_ => fail!("blind_sum-order-dependent", "blind_sum is Ok in one operand order and Err in another"),
+	}
+
+	// --- split: b + split(a, b) == a
+	let diff = sub_mod(&a, &b);
+	match (bf(&a).split(&bf(&b), secp), diff == ZERO) {
+		(Ok(b2), false) => {
+			let b2 = bf_bytes(&b2);
+			ensure!(b2 == diff, "split-wrong", "split({}, {}) = {} reference {}", c.a, c.b, b2.to_hex(), diff.to_hex());
+			ensure!(tally_to_zero(secp, &[b, b2], &[a])?, "split-parts-do-not-sum", "commitments to zero of the parts of split({}, {}) do not sum to the whole", c.a, c.b);
+		}
+		(Ok(b2), true) => fail!("split-zero-accepted", "split of equal operands returned {}", bf_bytes(&b2).to_hex()),
+		(Err(e), false) => fail!("split-err", "split({}, {}) failed: {:?}", c.a, c.b, e),
+		(Err(_), true) => {}
+	}
+
+	// --- add, then subtract restores
+	let sum = add_mod(&a, &b);
+	let both_zero = a == ZERO && b == ZERO;
+	match (bf(&a).add(&bf(&b), secp), sum == ZERO && !both_zero) {
+		(Ok(s), false) => {
+			let s = bf_bytes(&s);
+			ensure!(s == sum, "add-wrong", "add({}, {}) = {} reference {}", c.a, c.b, s.to_hex(), sum.to_hex());
+			// commutative
+			let s2 = bf(&b).add(&bf(&a), secp).map_err(|e| Fail::new("add-err", format!("{:?}", e)))?;
+			ensure!(bf_bytes(&s2) == s, "add-order-dependent", "add({},{}) != add({},{})", c.a, c.b, c.b, c.a);
+			if a != ZERO {
+				// (a + b) − b == a, through split and through blind_sum
+				let back = bf(&s).split(&bf(&b), secp).map_err(|e| Fail::new("sub-after-add-err", format!("{:?}", e)))?;
+				ensure!(bf_bytes(&back) == a, "add-sub-not-restored", "({} + {}) - {} = {}", c.a, c.b, c.b, bf_bytes(&back).to_hex());
+				let back2 = kc
+					.blind_sum(&BlindSum::new().add_blinding_factor(bf(&s)).sub_blinding_factor(bf(&b)))
+					.map_err(|e| Fail::new("sub-after-add-err", format!("{:?}", e)))?;
+				ensure!(bf_bytes(&back2) == a, "add-sub-not-restored", "blind_sum(+({} + {}), -{}) = {}", c.a, c.b, c.b, bf_bytes(&back2).to_hex());
+				ensure!(tally_to_zero(secp, &[a, b], &[s])?, "add-not-additive-on-curve", "a*G + b*G != (a+b)*G for {} {}", c.a, c.b);
+			}
+		}
+		(Ok(s), true) => fail!("add-zero-accepted", "add of opposite operands returned {}", bf_bytes(&s).to_hex()),
+		(Err(e), false) => fail!("add-err", "add({}, {}) failed: {:?}", c.a, c.b, e),
+		(Err(_), true) => {}
+	}
+
+	if counting {
+		ev.eval();
+		if want == ZERO {
+			ev.class("arith_sum_zero_rejected");
+		}
+		if !ids.is_empty() {
+			ev.class("arith_sum_with_key_ids");
+		}
+		if diff == ZERO || (sum == ZERO && !both_zero) {
+			ev.class("arith_split_or_add_zero_rejected");
+		}
+		if a == ZERO || b == ZERO || pos.iter().chain(neg.iter()).any(|x| *x == ZERO) {
+			ev.class("arith_zero_operand");
+		}
+		if pos.len() + neg.len() + ids.len() >= 3 {
+			ev.class("arith_sum_3plus_operands");
+		}
+		ev.sample("arith", || serde_json::to_value(c).unwrap());
+	}
+	Ok(())
+}
+
+// ------------------------------------------------------------------ part: builder
+
+#[derive(Clone, Debug, Serialize, Deserialize)]
+pub struct Item {
+	/// output value; for inputs the wanted value (actual input values are
+	/// derived so that the transaction balances)
+	pub value: u64,
+	pub depth: u8,
+	pub path: Vec<u32>,
+	/// inputs only: spend as coinbase
+	pub coinbase: bool,
+}
+
+#[derive(Clone, Debug, Serialize, Deserialize)]
+pub struct BuilderCase {
+	pub seed: String,
+	pub other_seed: String,
+	/// 0 build::transaction; 1 build::partial_transaction, one party;
+	/// 2 partial_transaction by the sender, then by a receiver with another seed on top
+	pub kind: u8,
+	pub legacy: bool,
+	pub inputs: Vec<Item>,
+	pub outputs: Vec<Item>,
+	/// receiver's outputs (kind 2)
+	pub outputs_b: Vec<Item>,
+	pub fee: u64,
+	pub fee_shift: u8,
+	/// 0 = plain kernel, otherwise height locked
+	pub lock_height: u64,
+	/// tag of the kernel excess chosen by the harness (kinds 1, 2)
+	pub excess_tag: u64,
+}
+
+const FEE_MAX: u64 = (1 << 40) - 1;
+
+fn builder_strategy() -> impl Strategy<Value = BuilderCase> {
+	let item = || {
+		(amount(), key_path(1), any::<bool>()).prop_map(|(value, (depth, path), coinbase)| Item {
+			value,
+			depth,
+			path,
+			coinbase,
+		})
+	};
+	(
+		seed_pair(),
+		(0u8..3, prop::bool::weighted(0.2)),
+		prop::collection::vec(item(), 1..=3),
+		prop::collection::vec(item(), 0..=3),
+		prop::collection::vec(item(), 1..=2),
+		prop_oneof![3 => 1u64..1000, 1 => Just(1u64), 1 => Just(FEE_MAX), 2 => 1u64..=FEE_MAX],
+		0u8..16,
+		prop_oneof![2 => Just(0u64), 1 => 1u64..1_000_000],
+		any::<u64>(),
+	)
+		.prop_map(|((s, o), (kind, legacy), inputs, outputs, outputs_b, fee, fee_shift, lock_height, excess_tag)| BuilderCase {
+			seed: s.to_hex(),
+			other_seed: o.to_hex(),
+			kind,
+			legacy,
+			inputs,
+			outputs,
+			outputs_b: if kind == 2 { outputs_b } else { vec![] },
+			fee,
+			fee_shift,
+			lock_height,
+			excess_tag,
+		})
+}
+
+/// one concrete element of the transaction: value, identifier, owner (0 = sender, 1 = receiver)
+#[derive(Clone, Debug)]
+struct Elem {
+	value: u64,
+	id: Identifier,
+	coinbase: bool,
+	owner: usize,
+}
+
+/// Concrete balanced plan of a case: distinct key ids (the builder silently
+/// drops a duplicate commitment, transaction.rs:968), input values adding up
+/// to outputs + fee.
+fn plan(c: &BuilderCase) -> (Vec<Elem>, Vec<Elem>, u64) {
+	let fee = c.fee.clamp(1, FEE_MAX);
+	let mut n = 0u32;
+	let mut mk = |it: &Item, value: u64, owner: usize, is_output: bool| {
+		let mut path = it.path.clone();
+		path.resize(4, 0);
+		path[0] = (path[0] & !0x1f) | (n & 0x1f);
+		n += 1;
+		// legacy proofs can only be rewound at depth 3
+		let depth = if c.legacy && is_output { 3 } else { it.depth.clamp(1, 4) };
+		Elem {
+			value,
+			id: key_id(depth, &path),
+			coinbase: it.coinbase && !is_output,
+			owner,
+		}
+	};
+	let mut outs = vec![];
+	for it in &c.outputs {
+		outs.push(mk(it, it.value, 0, true));
+	}
+	if c.kind == 2 {
+		for it in &c.outputs_b {
+			outs.push(mk(it, it.value, 1, true));
+		}
+	}
+	let mut remaining: u128 = outs.iter().map(|o| o.value as u128).sum::<u128>() + fee as u128;
+	let mut ins = vec![];
+	let default_item = Item {
+		value: 0,
+		depth: 2,
+		path: vec![0, 0x8000_0001, 0, 0],
+		coinbase: false,
+	};
+	let k = c.inputs.len().max(1);
+	for i in 0..k {
+		let it = c.inputs.get(i).unwrap_or(&default_item);
+		let v = if i + 1 == k { remaining.min(u64::MAX as u128) } else { remaining.min(it.value as u128) } as u64;
+		remaining -= v as u128;
+		ins.push(mk(it, v, 0, false));
+	}
+	while remaining > 0 {
+		let v = remaining.min(u64::MAX as u128) as u64;
+		remaining -= v as u128;
+		ins.push(mk(&default_item, v, 0, false));
+	}
+	(ins, outs, fee)
+}
+
+fn build_with<B: ProofBuild>(
+	ctx: &Ctx,
+	c: &BuilderCase,
+	kcs: [&ExtKeychain; 2],
+	bs: [&B; 2],
+	ins: &[Elem],
+	outs: &[Elem],
+	features: KernelFeatures,
+	fee: u64,
+	counting: bool,
+) -> Result<Transaction, Fail> {
+	let elems = |owner: usize, with_inputs: bool| -> Vec<Box<Append<ExtKeychain, B>>> {
+		let mut v: Vec<Box<Append<ExtKeychain, B>>> = vec![];
+		if with_inputs {
+			for e in ins {
+				v.push(if e.coinbase { build::coinbase_input(e.value, e.id.clone()) } else { build::input(e.value, e.id.clone()) });
+			}
+		}
+		for e in outs.iter().filter(|e| e.owner == owner) {
+			v.push(build::output(e.value, e.id.clone()));
+		}
+		v
+	};
+	if c.kind == 0 {
+		return build::transaction(features, &elems(0, true), kcs[0], bs[0]).map_err(|e| Fail::new("builder-err", format!("build::transaction failed: {:?}", e)));
+	}
+	let secp = kcs[0].secp();
+	let (mut tx, mut total) =
+		build::partial_transaction(Transaction::empty(), &elems(0, true), kcs[0], bs[0]).map_err(|e| Fail::new("builder-err", format!("partial_transaction (sender) failed: {:?}", e)))?;
+	if c.kind == 2 && outs.iter().any(|e| e.owner == 1) {
+		let (tx2, bf_b) = build::partial_transaction(tx, &elems(1, false), kcs[1], bs[1]).map_err(|e| Fail::new("builder-err", format!("partial_transaction (receiver) failed: {:?}", e)))?;
+		tx = tx2;
+		total = total.add(&bf_b, secp).map_err(|e| Fail::new("builder-err", format!("adding the parties' blinding sums: {:?}", e)))?;
+		if counting {
+			ctx.ev.class("builder_two_party");
+		}
+	}
+	// the returned blinding factor is the excess of what was put into the
+	// transaction: Σout − Σin + fee·H == total·G, on curve points
+	let mut pos = tx.outputs_committed();
+	let mut neg = tx.inputs_committed();
+	let ok = SECP.with(|s| -> Result<bool, Fail> {
+		pos.push(s.commit_value(fee).map_err(|e| Fail::new("harness:commit", format!("{:?}", e)))?);
+		let k = total.secret_key(s).map_err(|e| Fail::new("builder-err", format!("blind sum is not a key: {:?}", e)))?;
+		neg.push(s.commit(0, k).map_err(|e| Fail::new("harness:commit", format!("{:?}", e)))?);
+		Ok(s.verify_commit_sum(pos, neg))
+	})?;
+	ensure!(ok, "partial-blind-sum-wrong", "partial_transaction's blinding factor is not the excess of its inputs and outputs");
+	// complete it the way transaction_with_kernel does, with our own excess key
+	let k1 = scalar_from(format!("c20-excess-{}", c.excess_tag).as_bytes());
+	let kernel = sign_kernel(features, &k1);
+	let offset = total
+		.split(&BlindingFactor::from_secret_key(k1), secp)
+		.map_err(|e| Fail::new("builder-err", format!("split of the total blinding factor: {:?}", e)))?;
+	Ok(tx.with_kernel(kernel).with_offset(offset))
+}
+
+pub fn check_builder(ctx: &Ctx, c: &BuilderCase, counting: bool) -> PResult {
+	let ev = &ctx.ev;
+	let seed = unhex(&c.seed)?;
+	ensure!(!seed.is_empty(), "harness:case", "empty seed");
+	let other = other_seed(&seed, unhex(&c.other_seed)?);
+	let (ins, outs, fee) = plan(c);
+	let total_in: u128 = ins.iter().map(|e| e.value as u128).sum();
+	let total_out: u128 = outs.iter().map(|e| e.value as u128).sum();
+	ensure!(total_in == total_out + fee as u128, "harness:plan", "plan does not balance");
+	let ff = FeeFields::new((c.fee_shift & 15) as u64, fee).map_err(|e| Fail::new("harness:fee", format!("{:?}", e)))?;
+	let features = if c.lock_height == 0 {
+		KernelFeatures::Plain { fee: ff }
+	} else {
+		KernelFeatures::HeightLocked {
+			fee: ff,
+			lock_height: c.lock_height,
+		}
+	};
+	let kc_a = keychain(&seed)?;
+	let kc_b = keychain(&other)?;
+	let tx = if c.legacy {
+		let (ba, bb) = (LegacyProofBuilder::new(&kc_a), LegacyProofBuilder::new(&kc_b));
+		build_with(ctx, c, [&kc_a, &kc_b], [&ba, &bb], &ins, &outs, features, fee, counting)?
+	} else {
+		let (ba, bb) = (ProofBuilder::new(&kc_a), ProofBuilder::new(&kc_b));
+		build_with(ctx, c, [&kc_a, &kc_b], [&ba, &bb], &ins, &outs, features, fee, counting)?
+	};
+
+	// everything handed to the builder is in the transaction, under the
+	// commitments an independent keychain of the same seed computes
+	let kcs = [keychain(&seed)?, keychain(&other)?];
+	let commit_of = |e: &Elem| kcs[e.owner].commit(e.value, &e.id, SwitchCommitmentType::Regular).map_err(|x| Fail::new("commit-err", format!("{:?}", x)));
+	let mut want_in = ins.iter().map(commit_of).collect::<Result<Vec<_>, _>>()?;
+	let mut want_out = outs.iter().map(commit_of).collect::<Result<Vec<_>, _>>()?;
+	want_in.sort();
+	want_out.sort();
+	let (mut got_in, mut got_out) = (tx.inputs_committed(), tx.outputs_committed());
+	got_in.sort();
+	got_out.sort();
+	ensure!(got_in == want_in, "builder-inputs-differ", "inputs of the built transaction are not the commitments of the given (value, key id) pairs: {} vs {}", got_in.len(), want_in.len());
+	ensure!(got_out == want_out, "builder-outputs-differ", "outputs of the built transaction are not the commitments of the given (value, key id) pairs: {} vs {}", got_out.len(), want_out.len());
+	ensure!(tx.kernels().len() == 1 && tx.fee() == fee, "builder-kernel", "kernels {} fee {} (wanted 1, {})", tx.kernels().len(), tx.fee(), fee);
+
+	if let Err(e) = tx.validate(Weighting::AsTransaction) {
+		fail!(
+			format!("built-tx-invalid:{}", crate::world::err_name(&e)),
+			"transaction built from {} inputs {:?}, outputs {:?}, fee {} does not validate: {:?}",
+			ins.len(),
+			ins.iter().map(|e| e.value).collect::<Vec<_>>(),
+			outs.iter().map(|e| e.value).collect::<Vec<_>>(),
+			fee,
+			e
+		);
+	}
+	for k in tx.kernels() {
+		if let Err(e) = k.verify() {
+			fail!("built-kernel-sig-invalid", "kernel signature of the built transaction does not verify: {:?}", e);
+		}
+	}
+	// every output is recoverable by its owner's seed, and only by it
+	for e in &outs {
+		let cm = commit_of(e)?;
+		let o = tx.outputs().iter().find(|o| o.commitment() == cm).unwrap();
+		let want: Triple = (e.value, e.id.clone(), SwitchCommitmentType::Regular);
+		let secp = kcs[0].secp();
+		if let Err(x) = proof::verify(secp, cm, o.proof(), None) {
+			fail!("honest-proof-rejected", "proof of built output {} does not verify: {:?}", triple_str(&want), x);
+		}
+		let (own, foreign) = (&kcs[e.owner], &kcs[1 - e.owner]);
+		let (r_own, r_foreign) = if c.legacy {
+			(
+				proof::rewind(secp, &LegacyProofBuilder::new(own), cm, None, o.proof()),
+				proof::rewind(secp, &LegacyProofBuilder::new(foreign), cm, None, o.proof()),
+			)
+		} else {
+			(
+				proof::rewind(secp, &ProofBuilder::new(own), cm, None, o.proof()),
+				proof::rewind(secp, &ProofBuilder::new(foreign), cm, None, o.proof()),
+			)
+		};
+		match r_own {
+			Ok(Some(got)) => ensure!(got == want, "rewind-mismatch", "built output rewinds to {} instead of {}", triple_str(&got), triple_str(&want)),
+			r => fail!("rewind-none", "built output {} not recovered by its seed: {:?}", triple_str(&want), r.map(|o| o.map(|t| triple_str(&t)))),
+		}
+		if let Ok(Some(got)) = r_foreign {
+			fail!("other-seed-rewinds", "the other party's seed recovered {} from a built output", triple_str(&got));
+		}
+	}
+
+	if counting {
+		ev.eval();
+		ev.class(&format!("builder_kind:{}", ["transaction", "partial_one_party", "partial_two_party"][c.kind.min(2) as usize]));
+		ev.class(&format!("builder_outputs:{}", outs.len()));
+		ev.class(if c.legacy { "builder_gen:legacy" } else { "builder_gen:new" });
+		for e in &outs {
+			ev.class(&format!("builder_output_amount:{}", amount_class(e.value)));
+		}
+		if ins.iter().any(|e| e.coinbase) {
+			ev.class("builder_with_coinbase_input");
+		}
+		if c.lock_height != 0 {
+			ev.class("builder_height_locked_kernel");
+		}
+		if outs.len() >= 2 {
+			let mut cls: Vec<&str> = outs.iter().map(|e| amount_class(e.value)).collect();
+			cls.sort();
+			let hard: Vec<u8> = outs.iter().map(|e| {
+				let (d, p) = eff_path(&e.id);
+				hardened_mask(d, &p) | (d << 4)
+			}).collect();
+			ev.nontrivial(&("builder", c.kind, ins.len(), cls, hard, c.legacy, c.lock_height != 0));
+		}
+		ev.sample("builder", || {
+			json!({"case": serde_json::to_value(c).unwrap(), "derived_input_values": ins.iter().map(|e| e.value).collect::<Vec<_>>(), "output_values": outs.iter().map(|e| e.value).collect::<Vec<_>>(), "fee": fee})
+		});
+	}
+	Ok(())
+}
+
+// ------------------------------------------------------------------ part: reward
+
+#[derive(Clone, Debug, Serialize, Deserialize)]
+pub struct RewardCase {
+	pub seed: String,
+	pub other_seed: String,
+	pub depth: u8,
+	pub path: Vec<u32>,
+	pub fees: u64,
+	pub legacy: bool,
+	/// fixed signing nonce (reward::output's test_mode)
+	pub test_mode: bool,
+}
+
+fn reward_strategy() -> impl Strategy<Value = RewardCase> {
+	(
+		seed_pair(),
+		key_path(0),
+		prop_oneof![2 => Just(0u64), 3 => 0u64..1_000_000_000, 2 => 0u64..(1 << 44), 1 => any::<u64>(), 1 => Just(u64::MAX)],
+		prop::bool::weighted(0.2),
+		prop::bool::weighted(0.25),
+	)
+		.prop_map(|((s, o), (depth, path), fees, legacy, test_mode)| RewardCase {
+			seed: s.to_hex(),
+			other_seed: o.to_hex(),
+			depth: if legacy { 3 } else { depth },
+			path,
+			fees,
+			legacy,
+			test_mode,
+		})
+}
+
+pub fn check_reward(ctx: &Ctx, c: &RewardCase, counting: bool) -> PResult {
+	let ev = &ctx.ev;
+	let seed = unhex(&c.seed)?;
+	ensure!(!seed.is_empty(), "harness:case", "empty seed");
+	let other = other_seed(&seed, unhex(&c.other_seed)?);
+	let depth = c.depth.min(4);
+	let id = key_id(depth, &c.path);
+	let kc = keychain(&seed)?;
+	let kc2 = keychain(&seed)?;
+	let kco = keychain(&other)?;
+	let value = consensus::reward(c.fees);
+	let want: Triple = (value, id.clone(), SwitchCommitmentType::Regular);
+	let rerr = |e| Fail::new("reward-output-err", format!("reward::output(fees {}): {:?}", c.fees, e));
+	let (out, kern) = if c.legacy {
+		reward::output(&kc, &LegacyProofBuilder::new(&kc), &id, c.fees, c.test_mode).map_err(rerr)?
+	} else {
+		reward::output(&kc, &ProofBuilder::new(&kc), &id, c.fees, c.test_mode).map_err(rerr)?
+	};
+	ensure!(out.is_coinbase() && kern.is_coinbase(), "reward-features", "reward output/kernel are not flagged coinbase");
+	let cm = kc2.commit(value, &id, SwitchCommitmentType::Regular).map_err(|e| Fail::new("commit-err", format!("{:?}", e)))?;
+	ensure!(out.commitment() == cm, "reward-commit", "reward output does not commit to reward(fees) = {} under the key id", value);
+	// the block-level coinbase rule: Σ cb outputs − reward·H == Σ cb kernel excesses
+	let lhs = SECP.with(|s| -> Result<Commitment, Fail> {
+		let over = s.commit_value(value).map_err(|e| Fail::new("harness:commit", format!("{:?}", e)))?;
+		s.commit_sum(vec![out.commitment()], vec![over]).map_err(|e| Fail::new("harness:commit", format!("{:?}", e)))
+	})?;
+	ensure!(lhs == kern.excess, "reward-does-not-balance", "output - reward({})*H != kernel excess", c.fees);
+	if let Err(e) = kern.verify() {
+		fail!("reward-kernel-sig-invalid", "coinbase kernel signature does not verify (fees {}): {:?}", c.fees, e);
+	}
+	let secp = kc2.secp();
+	if let Err(e) = proof::verify(secp, cm, out.proof(), None) {
+		fail!("honest-proof-rejected", "coinbase proof does not verify (value {}): {:?}", value, e);
+	}
+	let (r_own, r_other) = if c.legacy {
+		(
+			proof::rewind(secp, &LegacyProofBuilder::new(&kc2), cm, None, out.proof()),
+			proof::rewind(secp, &LegacyProofBuilder::new(&kco), cm, None, out.proof()),
+		)
+	} else {
+		(
+			proof::rewind(secp, &ProofBuilder::new(&kc2), cm, None, out.proof()),
+			proof::rewind(secp, &ProofBuilder::new(&kco), cm, None, out.proof()),
+		)
+	};
+	match r_own {
+		Ok(Some(got)) => ensure!(got == want, "rewind-mismatch", "coinbase output rewinds to {} instead of {}", triple_str(&got), triple_str(&want)),
+		r => fail!("rewind-none", "coinbase output {} not recovered by its seed: {:?}", triple_str(&want), r.map(|o| o.map(|t| triple_str(&t)))),
+	}
+	if let Ok(Some(got)) = r_other {
+		fail!("other-seed-rewinds", "another seed recovered {} from a coinbase output", triple_str(&got));
+	}
+	if counting {
+		ev.eval();
+		ev.class(if c.legacy { "reward_gen:legacy" } else { "reward_gen:new" });
+		ev.class(&format!("reward_depth:{}", depth));
+		if c.fees == 0 {
+			ev.class("reward_fees_zero");
+		}
+		if value == u64::MAX {
+			ev.class("reward_value_saturated");
+		}
+		if depth >= 2 {
+			ev.nontrivial(&("reward", depth, hardened_mask(depth, &c.path), amount_class(value), c.legacy, c.test_mode));
+		}
+		ev.sample("reward", || serde_json::to_value(c).unwrap());
+	}
+	Ok(())
+}
+
+// ------------------------------------------------------------------ run / replay
+
+pub fn run(ctx: &Ctx) -> HResult<()> {
+	init_global();
+	let ev = &ctx.ev;
+	ev.rule("proptest cases: (seed 16-64 bytes + a different seed [independent / one bit apart / one byte longer], path depth 0-4 with hardened and non-hardened 32-bit words, amount from {0,1,2^32,2^52,2^64-1,2^k+-1,random}, switch mode, builder generation, view-key depth and construction, bit to flip); arithmetic cases: scalars below the group order incl. 1..16, N-1..N-16, zero, cancelling operands, optional key-id terms; builder cases: 1-3 wanted inputs, 0-3 (+1-2 receiver) outputs, fee 1..2^40-1, input values derived so the plan balances; non-trivial = proof/reward case with depth >= 2 and non-zero amount, or builder case with >= 2 outputs; distinct by (part, depth, hardened pattern, amount class, switch, builder generation) resp. (kind, #inputs, output amount classes, output path patterns, generation, kernel type)");
+	ev.assume("libsecp256k1-zkp point arithmetic (commit, commit_sum, verify_commit_sum) and bulletproof verification are trusted; the reference for scalar sums is the harness's own arithmetic modulo the group order");
+	ev.assume("LegacyProofBuilder is exercised only at depth 3 with the regular switch: its message carries neither depth nor switch type and check_output hard-codes both (core/src/libtx/proof.rs:324,332)");
+	ev.assume("ViewKey recovery is asserted only for SwitchCommitmentType::None and a non-hardened path suffix below the view key: ViewKey::commit returns Err(SwitchCommitment) for the regular switch (keychain/src/view_key.rs:190) and check_output returns None on a hardened step (proof.rs:418); elsewhere only 'no different triple' is asserted");
+	ev.assume("a zero scalar result is outside the domain: libsecp rejects the zero secret key, so blind_sum/split/add must return Err exactly then (checked in both directions)");
+	ev.assume("key ids handed to the builder are pairwise distinct (a duplicate commitment is a double spend and is silently dropped by with_input/with_output); the builder always uses the regular switch; fees are 1..2^40-1 (FeeFields)");
+	ev.assume("a bit-flipped proof may rewind to an identifier that differs only in words beyond its depth (they do not influence the key); only (amount, switch, depth, words below depth) are compared there");
+	ev.assume("a proof of value 2^64-1 is inside the domain: bullet_proof proves 64 bits and never returns an error");
+	ev.assume("zero-value outputs are inside the view-key domain; their failure has its own signature viewkey-zero-amount-err: if that is listed as an open known finding the cases are counted in excluded_known and the exploration continues, otherwise it is reported as a violation");
+	let threads = 16;
+
+	let t0 = std::time::Instant::now();
+	let fl = pbt_par(ctx, "proof", ctx.n(800, 16_000), threads, proof_strategy, init_thread, |c, counting| check_proof(ctx, c, counting));
+	if let Some(fl) = fl {
+		ctx.report("proof", &fl.fail.sig, serde_json::to_value(&fl.value).unwrap(), &fl.fail.msg);
+	}
+	ev.extra("wall_s_proof", json!(t0.elapsed().as_secs_f64()));
+	let t0 = std::time::Instant::now();
+	let fl = pbt_par(ctx, "builder", ctx.n(160, 3_200), threads, builder_strategy, init_thread, |c, counting| check_builder(ctx, c, counting));
+	if let Some(fl) = fl {
+		ctx.report("builder", &fl.fail.sig, serde_json::to_value(&fl.value).unwrap(), &fl.fail.msg);
+	}
+	ev.extra("wall_s_builder", json!(t0.elapsed().as_secs_f64()));
+	let t0 = std::time::Instant::now();
+	let fl = pbt_par(ctx, "reward", ctx.n(120, 2_400), threads, reward_strategy, init_thread, |c, counting| check_reward(ctx, c, counting));
+	if let Some(fl) = fl {
+		ctx.report("reward", &fl.fail.sig, serde_json::to_value(&fl.value).unwrap(), &fl.fail.msg);
+	}
+	ev.extra("wall_s_reward", json!(t0.elapsed().as_secs_f64()));
+	let t0 = std::time::Instant::now();
+	let fl = pbt_par(ctx, "arith", ctx.n(12_000, 240_000), threads, arith_strategy, init_thread, |c, counting| check_arith(ctx, c, counting));
+	if let Some(fl) = fl {
+		ctx.report("arith", &fl.fail.sig, serde_json::to_value(&fl.value).unwrap(), &fl.fail.msg);
+	}
+	ev.extra("wall_s_arith", json!(t0.elapsed().as_secs_f64()));
+
+	for cl in [
+		"proof_amount:0",
+		"proof_amount:1",
+		"proof_amount:2^32",
+		"proof_amount:2^52",
+		"proof_amount:2^64-1",
+		"proof_depth:0",
+		"proof_depth:4",
+		"proof_switch:none",
+		"proof_switch:regular",
+		"proof_builder:legacy",
+		"viewkey_recovered",
+		"viewkey_recovered_child_key",
+		"builder_two_party",
+		"arith_sum_zero_rejected",
+	] {
+		if ev.class_count(cl) == 0 && !ctx.violated() {
+			eprintln!("warning: class {} is empty in this run", cl);
+		}
+	}
+	Ok(())
+}
+
+pub fn replay(ctx: &Ctx, part: &str, case: &Value) -> PResult {
+	init_global();
+	fn parse<T: serde::de::DeserializeOwned>(case: &Value) -> Result<T, Fail> {
+		serde_json::from_value(case.clone()).map_err(|e| Fail::new("harness:replay-parse", e.to_string()))
+	}
+	match part {
+		"proof" => check_proof(ctx, &parse::<ProofCase>(case)?, false),
+		"arith" => check_arith(ctx, &parse::<ArithCase>(case)?, false),
+		"builder" => check_builder(ctx, &parse::<BuilderCase>(case)?, false),
+		"reward" => check_reward(ctx, &parse::<RewardCase>(case)?, false),
+		_ => Ok(()),
+	}
 }
